@@ -598,9 +598,18 @@ func parseMonthName(parts []string, monthPos int) (string, error) {
 	return CleanSpace(monthName), nil
 }
 
+// dateWordsRegexp converts a pipe-separated list of keywords (like
+// DateWordsAbout) into a regular expression alternation. The keywords contain
+// literal dots ("Abt.") that must not match any other character.
+func dateWordsRegexp(words string) string {
+	return strings.Replace(words, ".", `\.`, -1)
+}
+
 var dateRegexp = regexp.MustCompile(
-	fmt.Sprintf(`(?i)^(%s|%s|%s)? ?(\d+ )?(\w+ )?(\d+)$`,
-		DateWordsAbout, DateWordsBefore, DateWordsAfter))
+	fmt.Sprintf(`(?i)^(?:(%s|%s|%s) )?(\d+ )?(\w+ )?(\d+)$`,
+		dateWordsRegexp(DateWordsAbout),
+		dateWordsRegexp(DateWordsBefore),
+		dateWordsRegexp(DateWordsAfter)))
 
 func parseDateParts(dateString string, isEndOfRange bool) Date {
 	parts := dateRegexp.FindStringSubmatch(dateString)
